@@ -76,3 +76,21 @@ Ltac pos :=
   | |- 0 < / ?a => apply Rinv_0_lt_compat; pos
   | |- _ => first [assumption | lra | nra]
   end.
+
+(* non-zero side conditions of field *)
+Ltac nz1 :=
+  first [ assumption
+        | apply Rgt_not_eq; assumption
+        | apply Rlt_not_eq; assumption
+        | apply Rgt_not_eq; pos
+        | exact PI_neq0
+        | lra | nra ].
+Ltac nz := repeat split; nz1.
+
+(* equation over R with divisions: clear denominators, then ideal membership *)
+Ltac field_nsatz :=
+  first [ solve [ring]
+        | solve [field; nz]
+        | solve [field_simplify_eq; [nsatz_R | nz ..]]
+        | solve [field_simplify_eq; nsatz_R]
+        | solve [nsatz_R] ].
